@@ -41,6 +41,11 @@ CHECKS["C06"] = dict(
    text="History search with an invariant: every token sequence up to the bound and random op lists up to 40 steps (append/remove/re-append data, create/remove/edit groups, merge, clear, commands with undo/redo, save+restore) are executed on a real DataCollection; after every step each dataset must carry exactly one subset per live group, groups must list exactly those subsets, members must share state/label/style, and removed datasets/groups must keep no live membership.",
    note="Trusted: the invariant in pbt/props/c06.py as the reading of the statement; finalisers run at fixed points (gc.collect).",
    ref="DESIGN.md section 4 C06")
+CHECKS["C11"] = dict(
+   technique="model-based property testing (Hypothesis): generated join graphs and selections vs. a by-value key-membership model with path-aware recursion",
+   text="Generated-input search with a reference model: for generated tables, key dtypes, join shapes (1-1, n-n, 1-n, n-1), chains and cycles, and selections evaluable on one dataset or none, the mask on every queried dataset must be one the model admits (key membership by value through any joined neighbour), or IncompatibleAttribute when nobody can evaluate it; earlier evaluations (including incompatible ones) on other datasets precede the read, and the recursion guard must be left clear.",
+   note="Trusted: the join model in pbt/props/c11.py; any qualifying neighbour's answer is accepted; NaN keys and string/number mixed joins are not generated.",
+   ref="DESIGN.md section 4 C11")
 NOT_APPLICABLE = []
 
 def main():
